@@ -464,6 +464,59 @@ func ruleE3(c *Ctx) {
 				}
 			})
 		}
+		// (c') the same for a named helper that is deferred with the address of the named result
+		eachInstr(fn, func(ins ssa.Instruction) {
+			d, ok := ins.(*ssa.Defer)
+			if !ok {
+				return
+			}
+			h := d.Call.StaticCallee()
+			if h == nil || h.Blocks == nil || funcPkgPath(h) != cmdPath {
+				return
+			}
+			for ai, a := range d.Call.Args {
+				al, isAl := a.(*ssa.Alloc)
+				if !isAl || !isNamedResult(fn, al) || ai >= len(h.Params) {
+					continue
+				}
+				p := h.Params[ai]
+				nst, bad := 0, false
+				eachInstr(h, func(hi ssa.Instruction) {
+					st, ok := hi.(*ssa.Store)
+					if !ok || st.Addr != ssa.Value(p) {
+						return
+					}
+					nst++
+					guarded := false
+					dominatingConds(st.Block(), func(cond ssa.Value, taken bool, at *ssa.BasicBlock) {
+						bo, ok := cond.(*ssa.BinOp)
+						if !ok {
+							return
+						}
+						isLoad := func(v ssa.Value) bool {
+							u, ok := v.(*ssa.UnOp)
+							return ok && u.Op == token.MUL && u.X == ssa.Value(p)
+						}
+						if (isLoad(bo.X) && isNilConst(bo.Y)) || (isLoad(bo.Y) && isNilConst(bo.X)) {
+							if (bo.Op == token.EQL && taken) || (bo.Op == token.NEQ && !taken) {
+								guarded = true
+							}
+						}
+					})
+					if !guarded {
+						bad = true
+					}
+				})
+				key := funcKey(fn) + "/deferred " + h.Name() + " stores " + p.Name()
+				switch {
+				case nst == 0:
+				case bad:
+					r.Finding("E3", key, c.P.pos(ins.Pos()), "the deferred step overwrites the command error unconditionally: an earlier failure can be replaced by nil (exit 0)")
+				default:
+					r.Discharge("E3", key, c.P.pos(ins.Pos()), "the deferred step overwrites the command error only when it is nil")
+				}
+			}
+		})
 	}
 	// (d) main: os.Exit(1) exactly under Execute() != nil
 	mainFn := c.P.SSA.FuncValue(lookupFunc(c.P.Main, "main"))
@@ -545,6 +598,14 @@ func ruleE4(c *Ctx) {
 					if g, isG := u.X.(*ssa.Global); isG && g.Name() == "exitStatus" {
 						gotFlag = true
 					}
+					// `if !completedSuccessfully { return err }`: the global is exactly `err == nil` of the
+					// evaluation (rule E3), so being past that test is being on the success path
+					if g, isG := u.X.(*ssa.Global); isG && g.Name() == "completedSuccessfully" {
+						gotErrNil = true
+					}
+				}
+				if bo, isBo := cond.(*ssa.BinOp); isBo && (bo.Op == token.NEQ && !taken) && (isNilConst(bo.X) || isNilConst(bo.Y)) {
+					gotErrNil = true
 				}
 			})
 			if !gotErrNil || !gotFlag {
